@@ -807,6 +807,12 @@ func conjuncts(e ast.Expr) []ast.Expr {
 func classifyFor(p *Program, fname string, fs *ast.ForStmt) loopCls {
 	info := p.Info
 	if fs.Cond == nil {
+		// `for { if C { return / break }; rest }` is `for !C { rest }` (the exit test comes first)
+		if nfs := exitFirstAsCondition(fs); nfs != nil {
+			if cls := classifyFor(p, fname, nfs); cls.kind != "" {
+				return cls
+			}
+		}
 		if why, ok := reviewedLoops[fname]; ok {
 			return loopCls{"reviewed", why}
 		}
@@ -1560,4 +1566,46 @@ func innermostGuard(gs []guard) guard {
 		}
 	}
 	return best
+}
+
+// exitFirstAsCondition rewrites a condition-less loop whose first statement is
+// an exit test (`if C { ...; return }` or `if C { break }`, no init, no else)
+// into the equivalent conditional loop `for !C { rest }`; nil if the loop has
+// another shape. The negation is structural (comparison operators flipped) so
+// that the idioms, which match comparison shapes, apply.
+func exitFirstAsCondition(fs *ast.ForStmt) *ast.ForStmt {
+	if fs.Cond != nil || fs.Init != nil || fs.Post != nil || fs.Body == nil || len(fs.Body.List) < 2 {
+		return nil
+	}
+	ifs, ok := fs.Body.List[0].(*ast.IfStmt)
+	if !ok || ifs.Init != nil || ifs.Else != nil || len(ifs.Body.List) == 0 {
+		return nil
+	}
+	switch l := ifs.Body.List[len(ifs.Body.List)-1].(type) {
+	case *ast.ReturnStmt:
+	case *ast.BranchStmt:
+		if l.Tok != token.BREAK || l.Label != nil {
+			return nil
+		}
+	default:
+		return nil
+	}
+	var neg ast.Expr
+	switch c := unparen(ifs.Cond).(type) {
+	case *ast.BinaryExpr:
+		flip := map[token.Token]token.Token{token.EQL: token.NEQ, token.NEQ: token.EQL, token.LSS: token.GEQ, token.GEQ: token.LSS, token.GTR: token.LEQ, token.LEQ: token.GTR}
+		op, ok := flip[c.Op]
+		if !ok {
+			return nil
+		}
+		neg = &ast.BinaryExpr{X: c.X, OpPos: c.OpPos, Op: op, Y: c.Y}
+	case *ast.UnaryExpr:
+		if c.Op != token.NOT {
+			return nil
+		}
+		neg = c.X
+	default:
+		return nil
+	}
+	return &ast.ForStmt{For: fs.For, Cond: neg, Body: &ast.BlockStmt{Lbrace: fs.Body.Lbrace, List: fs.Body.List[1:], Rbrace: fs.Body.Rbrace}}
 }
